@@ -14,6 +14,16 @@ Definition qmass (m : meas Qc) (r : row) (sc : list nat) (c : row) : Qc := mass_
 Definition qtotal (m : meas Qc) : Qc := total Qc 0%Qc Qcplus m.
 Definition qcmeas (t : ctree Qc) (pv : Z) (r : row) : meas Qc := cmeas Qc 0%Qc 1%Qc Qcplus Qcmult Qcdiv t pv r.
 
+(* the side conditions of C07_measure_builtin_leaves that are not already part of valid_b, decided per case:
+   table keys duplicate-free; no zero normaliser on the evidence row (SampleClt.nzb_sound) *)
+Fixpoint znodupb (l : list Z) : bool :=
+  match l with [] => true | x :: xs => negb (existsb (Z.eqb x) xs) && znodupb xs end.
+Definition qbuiltin_okb (r : row) (t : qtable) : bool :=
+  forallb (fun n => match nkind n with
+                    | KLeaf (LTab _ tab) => znodupb (map fst tab)
+                    | KLeaf (LClt c) => nzb Qc 0%Qc 1%Qc Qcplus Qcmult Qc_eq_bool (clt_tree Qc 0%Qc c) 0%Z r
+                    | _ => true end) t.
+
 Record scase := {
   sc_t : qtable;
   sc_doms : list (nat * list Z);
@@ -24,7 +34,7 @@ Record scase := {
 
 Definition within (eps freq p : Qc) : bool := Qle_bool (Qabs (this freq - this p)) (this eps).
 
-(* header: [64 table not valid; 32 total mass <> val(r) (exact tables only); 8 evidence has probability zero;
+(* header: [64 table not valid; 16 side conditions of the theorem fail (duplicate table key / zero normaliser); 32 total mass <> val(r) (exact tables only); 8 evidence has probability zero;
             2 the listed cells do not carry the whole mass]
    then per cell: 1 frequency outside the Hoeffding radius, 4 model: mass(c) <> val(c) *)
 Definition run_scase (c : scase) : list Z :=
@@ -34,6 +44,7 @@ Definition run_scase (c : scase) : list Z :=
   let tot := qtotal m in
   let ps := map (fun cf => qmass m r sc (fst cf)) (sc_cells c) in
   (if qvalid_c (sc_doms c) (sc_cont c) t then 0 else 64)%Z ::
+  (if qbuiltin_okb r t then 0 else 16)%Z ::
   (match sc_cont c with [] => if Qc_eq_bool tot (qroot t r) then 0 else 32 | _ => 0 end)%Z ::
   (if Qc_eq_bool tot 0%Qc then 8 else 0)%Z ::
   (if Qc_eq_bool (qsum ps) tot then 0 else 2)%Z ::
